@@ -148,6 +148,9 @@ def decomp (c : Case) : Verdict :=
       else if res == "ok" && !(adv && term == "eof" && d.length == declared &&
           (match parseCertMsg d with | some pc => contentEq impl pc | none => false)) then
         .propFail tag "accepted-something-else-than-the-decoded-stream"
+      else if res == "ok" && o.getD "after" "same" ≠ "same" then
+        -- the result was read again after other connections had their certificates decompressed
+        .propFail tag "recovered-certificate-changed-after-later-decompressions"
       else if alloc > base + lim + 4 + slack &&
           (match o.nat "mk" with | some mk => mk > lim + 4 + 4096 | none => true) then
         -- coarse figure (TotalAlloc) excessive and the exact one (bytes allocated by decompressCert
@@ -208,6 +211,14 @@ def codec (c : Case) : Verdict :=
           else .diff tag s!"m={hex bs} u={mu}"
     | _, _, _ => .bad "cc_codec: bad line"
 
+/-- `w1+2` = preset with the extension listing 1,2; `wo` = preset without it; `drop` = the
+extension removed from `uconn.Extensions` (same effect on the state the model keeps). -/
+def parsePreset (s : String) : Option Preset :=
+  if s = "wo" ∨ s = "drop" then some ⟨none⟩
+  else if s.startsWith "w" then
+    (((s.drop 1).toString.splitOn "+").mapM String.toNat?).map fun a => ⟨some a⟩
+  else none
+
 /-- family `cc_hs`. -/
 def hs (c : Case) : Verdict :=
   let i := c.input
@@ -235,14 +246,25 @@ def hs (c : Case) : Verdict :=
       let impl : Content := ⟨ipeer, iocsp, iscts⟩
       if !plain && sumNat cs ≠ d.length then .bad "cc_hs: chunk sizes do not add up" else
       let dec : Decoder := fun _ _ => mkReader d cs term eager
-      let ctx : ClientCtx := ⟨ext, algs⟩
+      -- the client state: from the hello on the wire, or (rebuilt hellos) from the model of the
+      -- preset sequence, which must then agree with the hello on the wire
+      let seqS := i.getD "seq" "-"
+      let presets := if seqS = "-" then some [] else (seqS.splitOn ">").mapM parsePreset
+      match presets with
+      | none => .bad "cc_hs: bad seq"
+      | some ps =>
+      let ctx : ClientCtx := if ps.isEmpty then ⟨ext, algs⟩ else afterPresets ps
+      if !ps.isEmpty && !(ctx.hasExt == ext && (!ext || ctx.adv == algs)) then
+        .diff "rebuilt" s!"hello after presets: ext={ctx.hasExt} algs={natsStr ctx.adv}"
+      else
       let st := readServerCert ctx raw dec
       let adv := algs.contains alg
       let tampered := !plain && !bytesEq d orig       -- the bytes the client decodes are not the server's
       let valid := !plain && ext && adv && mut_ == "none" && dd == "0" && encMatches enc alg &&
         raw.length ≤ 4 + maxCertMsg
       let alertSeen := server.startsWith "ralert:"
-      let mk := if plain then "plain" else if !ext then "noext" else if !adv then "unadv"
+      let mk := if !ps.isEmpty then (if ext && adv then "rebuilt-adv" else "rebuilt-stale")
+        else if plain then "plain" else if !ext then "noext" else if !adv then "unadv"
         else if !encMatches enc alg then "wrongcodec" else if mut_ ≠ "none" then mutKind mut_
         else if dd ≠ "0" then "decl" else if i.getD "tail" "0" ≠ "0" then "tail" else "valid"
       let outS := match st.outcome with
@@ -256,6 +278,11 @@ def hs (c : Case) : Verdict :=
       else if valid && !(client == "ok" && o.getD "echo" "false" == "true" &&
           (match origPc with | some pc => contentEq impl pc | none => false)) then
         .propFail tag s!"valid-compressed-certificate-handshake-failed client={client} why={why} server={server}"
+      else if !plain && !ext && client == "ok" then
+        -- judged on the hello actually sent: no compress_certificate extension in it
+        .propFail tag "compressed-certificate-accepted-although-the-hello-sent-did-not-advertise-compression"
+      else if client == "ok" && o.getD "peerafter" "same" ≠ "same" && o.getD "peerafter" "-" ≠ "-" then
+        .propFail tag "peer-certificates-changed-after-a-later-handshake"
       else if client == "ok" && !(match parseCertMsg (if plain then orig else d) with
           | some pc => listEq ipeer pc.certs | none => false) then
         .propFail tag "peer-certificates-differ-from-the-decoded-certificate-message"
